@@ -69,6 +69,10 @@ def failure_class(case, spec, got, build):
         if op in ("div", "rem") and b is not None and (b in ("I0", "B0", "Y0") or (b[0] == "F" and nc.bits2f(b) == 0.0)):
             return "zero-divisor-yields-value:%s-by-%s-zero" % (nc.KIND_NAME[case[1][0]], nc.KIND_NAME[b[0]])
         if op in nc.SHIFTS:
+            if op == "shl" and b is not None and b[0] != "F" and case[1][0] != "F" and \
+                    0 <= nc.ival(b) < nc.WIDTH[nc.promote(case[1][0], b[0])]:
+                # admissible amount, but x * 2^n does not fit the result kind: the high bits were dropped
+                return "shl-overflow-yields-truncated-value"
             return "shift-amount-out-of-range-yields-value:%s" % kinds
         if op in ("add", "sub", "mul", "div", "neg") and got[0] in "IBY":
             return "integer-overflow-yields-wrapped-value:%s" % build
@@ -150,7 +154,8 @@ def cli_cases(ctx, n):
     bset = {k: [v for v in nc.boundary_values(k) if nc.literal(v) is not None] for k in KINDS}
     out = [("add", "I2147483647", "I1"), ("div", "F3ff8000000000000", "Y0"), ("rem", "I-2147483648", "I-1"),
            ("neg", "I-2147483648"), ("mul", "B%d" % nc.I128_MAX, "Y2"), ("sub", "Y0", "Y1"), ("div", "I7", "Y0"),
-           ("not", "Ttrue"), ("not", "Tfalse"), ("shl", "I1", "I32"), ("shl", "Y255", "Y1"), ("ne", "F7ff8000000000000", "I1")]
+           ("not", "Ttrue"), ("not", "Tfalse"), ("shl", "I1", "I32"), ("shl", "Y255", "Y1"), ("ne", "F7ff8000000000000", "I1"),
+           ("shl", "I1", "I31"), ("shl", "I3", "I31"), ("shl", "I1", "I31"), ("shl", "B3", "I127"), ("shl", "I-1", "I31"), ("shl", "Y128", "Y1")]
     while len(out) < n:
         op = rng.choice(nc.BINOPS + ["neg"])
         k1, k2 = rng.choice(KINDS), rng.choice(KINDS)
@@ -252,7 +257,7 @@ def run(ctx):
                                "the hardware's IEEE-754 double arithmetic and Rust's `as f64` (this is what the code runs on)"]
     ctx.assumptions = ["models Num/NumImpl.v are hand-written; tied to the code by this run's differential comparison (debug and release builds)",
                        "a Rust panic and an anyhow error both count as 'execution stops with a failure' for C05 (C17 separates them); the failure class is part of the correspondence",
-                       "shifts are bit shifts of the fixed-width value (lost high bits are not an overflow); only the shift amount can be out of range (DESIGN 5.5)",
+                       "`x << n` is specified as the exact value x * 2^n (failure when it does not fit the result kind, like + - *), `x >> n` as floor(x / 2^n) (DESIGN 5.5)",
                        "every NaN is one NaN (payload and sign of NaN are not compared)"]
     if ok and not ctx.quick():
         nc.coqchk(ctx, ["MS.Props.C05"])
